@@ -773,6 +773,12 @@ def _serve_socket_threaded(
     def _close_listener_if_idle() -> None:
         nonlocal timer, shutdown_requested
         with state_lock:
+            # cancel() cannot stop a callback that is already past Timer's own
+            # check.  Such a callback may get here after a connection came and
+            # went (count back to 0); acting on it would end the worker without
+            # the idle period.  Only the currently armed timer may act.
+            if timer is not threading.current_thread():
+                return
             timer = None
             if conn_count != 0:
                 return
@@ -829,6 +835,10 @@ def _serve_socket_threaded(
             conn.settimeout(None)  # accepted connections must be blocking
             with state_lock:
                 conn_count += 1
+                # The idle timer may have fired between the last accept timeout
+                # and this accept (or before the count above was taken); the
+                # worker is no longer idle, so the request must not outlive it.
+                shutdown_requested = False
                 _cancel_timer_locked()
             t = threading.Thread(
                 target=_handle,
@@ -1122,6 +1132,10 @@ def serve_named_pipe(
     def _close_if_idle() -> None:
         nonlocal timer, shutdown_requested
         with state_lock:
+            # Same guard as _serve_socket_threaded: a callback that was already
+            # firing when it was cancelled must not act for the timer armed since.
+            if timer is not threading.current_thread():
+                return
             timer = None
             if conn_count != 0:
                 return
